@@ -14,6 +14,9 @@ def source_field(F):
     return (src[0] if len(src) == 1 else None), (idx[0] if len(idx) == 1 else None)
 
 
+OFFSET_FIELD = [None]      # name of the index entry's offset field, found by role in run()
+
+
 def last_position(p, recv):
     """abstract position class of the source after a path: from its last absolute seek and later reads"""
     pos = None
@@ -24,7 +27,7 @@ def last_position(p, recv):
             v = e[4]
             if is_agg(v, 'std::io::SeekFrom', 'Start'):
                 t = agg_field(v, '0')
-                pos = 'c100' if t == ('int', 100) else ('off' if 'offset' in absint.term_str(t) else 'other')
+                pos = 'c100' if t == ('int', 100) else ('off' if ('.' + (OFFSET_FIELD[0] or '?')) in absint.term_str(t) else 'other')
             elif is_agg(v, 'std::io::SeekFrom', 'End'):
                 pos = 'end'
             else:
@@ -36,6 +39,9 @@ def last_position(p, recv):
 
 def run(ctx):
     F = ctx.facts("default")
+    OFFSET_FIELD[0] = util.index_entry_fields(F)[0]
+    if not OFFSET_FIELD[0]:
+        ctx.missing("C15.R0", "offset field of the index entry (first big-endian i32 of each parsed entry)")
     ctx.rule("C15.R0", "random access starts with an absolute seek computed from the index entry, so its result does not depend on "
                        "the position left by earlier calls", floor=1)
     ctx.rule("C15.R1", "every state in which iter_shapes_as can be called has the source at byte 100 (the position the new iterator "
@@ -85,6 +91,16 @@ def run(ctx):
         return
     fit = fs[0]
     ps, _ = util.run_fn(F, fit)
+    # the iterator's position counter, by role (the field compared with the limit on the index-less None path)
+    from .C07 import counter_and_limit
+    from .C14 import iterator_next
+    nx = iterator_next(F)
+    counter_name = None
+    if nx:
+        c_, l_ = counter_and_limit(util.run_fn(F, nx, fork_fallible=True)[0])
+        counter_name = c_[1][0][1] if c_ else None
+    if not counter_name:
+        ctx.missing("C15.R1", "position counter of the shape iterator")
     believed = set()
     resync = True
     for p in ps:
@@ -93,7 +109,7 @@ def run(ctx):
             continue
         cands = [v for k, v in r[4] if v[0] == 'int' or (v[0] == 'cast' and v[1][0] == 'int')]
         for k, v in r[4]:
-            if 'pos' in k:
+            if counter_name and k == counter_name:
                 believed.add(v)
         sk = [e for e in p.io() if e[1] == 'seek' and e[2] == RECV]
         if not sk:
@@ -123,7 +139,8 @@ def run(ctx):
         ctx.missing("C15.R1", "ShapeReader::seek")
     frn = F.inherent_method("reader::ShapeReader", "read_nth_shape_as")
     if frn:
-        ps3, _ = util.run_fn(F, frn[0], inline=lambda g, t: 'ShapeReader' in g["def"] or g["kind"] == "Closure")
+        ps3, _ = util.run_fn(F, frn[0], inline=lambda g, t: g["kind"] == "Closure" or not (
+        g["def"].startswith(("record::", "header::", "<record::", "<header::")) or "read_one_shape" in g["def"]))
         okp = [p for p in ps3 if is_agg(p.ret, None, 'Some') and is_agg(agg_field(p.ret, '0'), None, 'Ok')
                and not util.infeasible_get_none(p)]
         posts['read_nth_shape_as(i) ok'] = set(last_position(p, RECV) or 'unchanged' for p in okp)
